@@ -23,6 +23,7 @@ pub const PROBLEMS: &[(&str, &str, usize)] = &[
     ("grid", "a:\n  type: int\n  init: 10\n  scale: 3.0\n  min: -20\n  max: 20\nb:\n  type: int\n  init: 10\n  scale: 3.0\n  min: -20\n  max: 20\n", 600),
     ("onemax", "v:\n  type: array\n  size: 8\n  valueType:\n    type: bool\n    init: false\n", 400),
     ("mapsize", "m:\n  type: anon map\n  initSize: 1\n  minSize: 0\n  maxSize: 8\n  valueType:\n    type: bool\n    init: false\n", 300),
+    ("tiny", "x:\n  type: real\n  init: 0.000000000001\n  scale: 0.000000000001\n", 400),
     ("choice", "c:\n  type: variant\n  init: a\n  a:\n    type: const\n  b:\n    type: enum\n    values: [p, q, r]\n    init: p\n", 200),
 ];
 
@@ -51,6 +52,10 @@ pub fn objective(prob: usize, v: &J) -> f64 {
                 _ => 0,
             };
             (n as f64 - 5.0).abs()
+        }
+        7 => {
+            let x = v["x"].as_f64().unwrap() / 1e-12;
+            (x - 0.3) * (x - 0.3)
         }
         _ => match &v["c"] {
             J::Object(m) => match m.get("b") {
